@@ -248,8 +248,14 @@ def _worker_a(items):
         for spec, lev, lhs, seeded in plan:
             r = {'spec': spec}
             try:
-                d1 = [flat(c, vars_) for c in run_gen(make_gen(spec, vars_), dvs, p.model)]
+                g1 = make_gen(spec, vars_)
+                d1 = [flat(c, vars_) for c in run_gen(g1, dvs, p.model)]
                 d2 = [flat(c, vars_) for c in run_gen(make_gen(spec, vars_), dvs, p.model)] if seeded else None
+                if seeded:
+                    # the same generator object asked again (a second run_driver) must reproduce its design as well
+                    d3 = [flat(c, vars_) for c in run_gen(g1, dvs, p.model)]
+                    if d3 != d1:
+                        d2 = d3
                 r['design'] = d1
                 if spec[0] != 'ff':
                     r['obs'] = obs_record(d1, d2, fs, lhs, lev)
